@@ -196,3 +196,104 @@ func (e *Engine) pos(p token.Pos) string {
 	}
 	return fmt.Sprintf("%s:%d", rel, po.Line)
 }
+
+// immutableKey: F|T|f where the type contract of T declares f immutable (written only by
+// the listed writer functions; checked by the guarded discipline and the module scan).
+func (e *Engine) immutableKey(key string) bool {
+	if !strings.HasPrefix(key, "F|") {
+		return false
+	}
+	parts := strings.SplitN(key[2:], "|", 2)
+	if len(parts) != 2 {
+		return false
+	}
+	tc := e.cs.Types[parts[0]]
+	if tc == nil {
+		return false
+	}
+	for _, f := range tc.Flags["immutable"] {
+		if f == parts[1] {
+			return true
+		}
+	}
+	return false
+}
+
+// moduleScan checks, over the SSA of every function of the module, that fields declared
+// immutable are stored to only inside the declared writer functions (or on objects
+// allocated in the storing function). Returns one site obligation per (type, field).
+func (e *Engine) moduleScan() []*Obligation {
+	var out []*Obligation
+	var tnames []string
+	for n := range e.cs.Types {
+		tnames = append(tnames, n)
+	}
+	sort.Strings(tnames)
+	for _, tn := range tnames {
+		tc := e.cs.Types[tn]
+		imm := tc.Flags["immutable"]
+		if len(imm) == 0 {
+			continue
+		}
+		writers := map[string]bool{}
+		for _, w := range tc.Flags["writers"] {
+			writers[w] = true
+		}
+		for _, f := range imm {
+			var bad []string
+			for name, fn := range e.funcs {
+				if writers[name] {
+					continue
+				}
+				for _, b := range fn.Blocks {
+					for _, in := range b.Instrs {
+						fa, ok := in.(*ssa.FieldAddr)
+						if !ok || structKey(fa.X.Type()) != tn {
+							continue
+						}
+						so := structOf(fa.X.Type())
+						if so == nil || so.Field(fa.Field).Name() != f {
+							continue
+						}
+						if _, fresh := fa.X.(*ssa.Alloc); fresh {
+							continue
+						}
+						for _, ref := range *fa.Referrers() {
+							switch x := ref.(type) {
+							case *ssa.Store:
+								if x.Addr == fa {
+									bad = append(bad, name+" ("+e.pos(x.Pos())+")")
+								}
+							case *ssa.UnOp, *ssa.DebugRef, *ssa.FieldAddr:
+							default:
+								// address escapes (call argument, closure, ...): only reads are expected
+								if c, ok := ref.(ssa.CallInstruction); ok {
+									cn := ""
+									if sc := c.Common().StaticCallee(); sc != nil {
+										cn = sc.String()
+									}
+									if strings.HasPrefix(cn, "(*sync.") || strings.HasPrefix(cn, "sync/atomic.") {
+										continue
+									}
+									bad = append(bad, name+" passes &"+tn+"."+f+" to "+cn+" ("+e.pos(ref.Pos())+")")
+								}
+							}
+						}
+					}
+				}
+			}
+			sort.Strings(bad)
+			goal := "true"
+			text := "field " + tn + "." + f + " is written only by its declared writers " + strings.Join(tc.Flags["writers"], ",")
+			st := "unsat"
+			if len(bad) > 0 {
+				goal = "false"
+				st = "sat"
+				text += "; violated in: " + strings.Join(bad, "; ")
+			}
+			out = append(out, &Obligation{Name: "module/immutable/" + tn + "." + f, Kind: "immutable", Func: "module", Tags: tc.Tags, Text: text, Goal: goal, Pc: "true", Site: true,
+				Result: &SolverResult{Status: st, Solver: "ssa-scan"}})
+		}
+	}
+	return out
+}
